@@ -46,10 +46,19 @@ class AbstractConstraint(object):
         return '<%s>' % representation
 
     def __eq__(self, other):
-        return self is other and True or self._values == other
+        if self is other:
+            return True
+
+        # the same operands under another kind of constraint is another
+        # set of values: (1..5) is not (1 | 5)
+        if (isinstance(other, AbstractConstraint) and
+                other.__class__ is not self.__class__):
+            return False
+
+        return self._values == other
 
     def __ne__(self, other):
-        return self._values != other
+        return not self == other
 
     def __lt__(self, other):
         return self._values < other
